@@ -309,7 +309,7 @@ def mon_c03_adders(im, p):
                 c = list(range(n)) if kind == 'list' else {str(i): i for i in range(n)}
                 snap = copy.copy(c)
                 try:
-                    im.p.eval(stmt, {'c': c}, max_ops_evaluated=1000)
+                    im.p.eval(stmt, dict(evalimpl.Host({}).fns, c=c), max_ops_evaluated=1000)
                     outcome = 'ok'
                 except ns.exc.ParserError:
                     outcome = 'ParserError'
@@ -645,6 +645,20 @@ def mon_c10(im, p):
     for k in info['names']:
         if k not in names0 and k not in top and k not in astkeys:
             fails.append({'signature': 'scope-leak', 'what': f'name {k!r} appeared in the host mapping after {src[:100]!r} although it is not assigned at top level', 'input': p})
+    # a host binding that no top-level statement assigns keeps its value: assignments / compound assignments made inside
+    # lambda calls (also the multi-line ones supplied through ast_names) must not reach it
+    scalar = lambda v: v is None or isinstance(v, (bool, int, str, decimal.Decimal))
+    for k, v0 in names0.items():
+        if k in top or not isinstance(k, str):
+            continue
+        if k not in info['names']:
+            fails.append({'signature': 'host-binding-lost', 'what': f'host binding {k!r} disappeared after {src[:100]!r}', 'input': p})
+        elif scalar(v0):
+            v1 = info['names'][k]
+            if type(v1) is not type(v0) or v1 != v0:
+                fails.append({'signature': 'host-binding-changed', 'what': f'host binding {k!r} changed from {v0!r} to {v1!r} after {src[:100]!r} '
+                              'although no top-level statement assigns it', 'input': p})
+                break
     return {'fail': fails, 'nontrivial': True}
 
 
@@ -837,6 +851,8 @@ def mon_c13(im, p):
                 continue
             for argspec in p['argsets']:
                 args = [_mkarg(a) for a in argspec]
+                if name == '__getitem__' and args and isinstance(args[0], dict) and type(args[0]) is not dict:
+                    continue      # `d[k]` on a host dict subclass runs the host's own __missing__: not the builtin's doing
                 snaps = [_snap(a) for a in args]
                 try:
                     F[name](*args)
@@ -868,6 +884,17 @@ def _mkarg(a):
             return {kk: _mkarg(x) for kk, x in v}
         if k == 'tuple':
             return tuple(_mkarg(x) for x in v)
+        if k == 'defaultdict':
+            import collections
+            d = collections.defaultdict(list)
+            d.update({kk: _mkarg(x) for kk, x in v})
+            return d
+        if k == 'missingdict':
+            class _M(dict):
+                def __missing__(self, key):
+                    self[key] = 0
+                    return 0
+            return _M({kk: _mkarg(x) for kk, x in v})
     if isinstance(a, list):
         return [_mkarg(x) for x in a]
     return a
@@ -1011,7 +1038,11 @@ def mon_c16(im, p):
             elif api == 'names':
                 list(im.p.list_names(src))
             else:
-                im.p.eval(src, {}, max_ops_evaluated=p.get('budget', 200))
+                names = {}
+                if p.get('full'):
+                    # containers that already hold the maximum number of elements
+                    names = {'c': list(range(10000)), 'd': {str(i): i for i in range(10000)}}
+                im.p.eval(src, names, max_ops_evaluated=p.get('budget', 200))
             continue
         except PE:
             continue
@@ -1019,7 +1050,7 @@ def mon_c16(im, p):
             continue
         except Exception as e:
             if api in ('parse', 'names') or p.get('planted'):
-                fails.append({'signature': f'not-parser-error:{api}:{type(e).__name__}', 'what': f'{api}({src[:80]!r}) raised {type(e).__name__}: {str(e)[:80]}', 'input': p})
+                fails.append({'signature': p.get('sig') or f'not-parser-error:{api}:{type(e).__name__}', 'what': f'{api}({src[:80]!r}) raised {type(e).__name__}: {str(e)[:80]}', 'input': p})
         except BaseException as e:
             fails.append({'signature': f'base-exception:{type(e).__name__}', 'what': f'{api}({src[:80]!r}) raised a non-Exception {type(e).__name__}', 'input': p})
     return {'fail': fails, 'nontrivial': True}
@@ -1216,6 +1247,33 @@ def mon_c19(im, p):
         if not (isinstance(x, D) and 0 <= x < 1):
             fails.append({'signature': 'rand0-out-of-range', 'what': f'rand() = {x!r}', 'input': p})
             break
+    # the extreme values random.random() can return (it promises [0.0, 1.0)): the largest double below 1, values that
+    # round to 1 at 6 / 10 / 15 places, the smallest positive ones
+    import math
+    real = ns.functions.random
+
+    class _Ext:
+        def __init__(self, v):
+            self.v = v
+
+        def random(self):
+            return self.v
+
+        def __getattr__(self, k):
+            return getattr(real, k)
+    try:
+        for v in (math.nextafter(1.0, 0.0), 0.9999995, 0.99999999995, 0.999999999999999, 0.0, 5e-324, 1e-30, 0.5):
+            ns.functions.random = _Ext(v)
+            try:
+                x = im.p.eval('rand()')
+            except Exception as e:
+                fails.append({'signature': 'rand0-raises:' + type(e).__name__, 'what': f'rand() raised {type(e).__name__} when random.random() = {v!r}', 'input': p})
+                break
+            if not (isinstance(x, D) and 0 <= x < 1):
+                fails.append({'signature': 'rand0-out-of-range', 'what': f'rand() = {x!r} when random.random() returns {v!r}', 'input': p})
+                break
+    finally:
+        ns.functions.random = real
     for L in p['lists']:
         arg = list(L)
         for _ in range(p['draws'] // 4 + 1):
